@@ -5,7 +5,7 @@
 //@ struct file=src/sys/fs/memfs/file.rs name=MemfsFile
 //@ endstruct
 //@ struct file=src/sys/fs/memfs/entry.rs name=MemfsEntry
-//@ rw R4 1 ⟦Option<HashSet<String>>⟧ => ⟦Option<NameSet>⟧
+//@ rw R4 * ⟦Option<HashSet<String>>⟧ => ⟦Option<NameSet>⟧
 //@ endstruct
 //@ struct file=src/sys/fs/stdfs/entry.rs name=StdfsEntry
 //@ endstruct
@@ -26,7 +26,7 @@ impl MemfsEntry {
 //@ item m_follow file=src/sys/fs/memfs/entry.rs block="impl Entry for MemfsEntry" fn=follow props=C10,C12
 //@ sig fn follow(mut self, follow: bool) -> VfsEntry
 //@ rw R2 + re⟦\bself\b⟧ => ⟦this⟧
-//@ rw R4 1 ⟦std::mem::swap(&mut this.path, &mut this.alt);⟧ => ⟦swap_paths(&mut this.path, &mut this.alt);⟧
+//@ rw R4 * ⟦std::mem::swap(&mut this.path, &mut this.alt);⟧ => ⟦swap_paths(&mut this.path, &mut this.alt);⟧
 //@ ins start
         let mut this = self;
 //@ endins
@@ -50,7 +50,7 @@ impl StdfsEntry {
 //@ item s_follow file=src/sys/fs/stdfs/entry.rs block="impl Entry for StdfsEntry" fn=follow props=C10,C12
 //@ sig fn follow(mut self, follow: bool) -> VfsEntry
 //@ rw R2 + re⟦\bself\b⟧ => ⟦this⟧
-//@ rw R4 1 ⟦std::mem::swap(&mut this.path, &mut this.alt);⟧ => ⟦swap_paths(&mut this.path, &mut this.alt);⟧
+//@ rw R4 * ⟦std::mem::swap(&mut this.path, &mut this.alt);⟧ => ⟦swap_paths(&mut this.path, &mut this.alt);⟧
 //@ ins start
         let mut this = self;
 //@ endins
